@@ -22,7 +22,14 @@ namespace vf {
 
 struct Rng {
   uint64_t s;
-  explicit Rng(uint64_t seed) : s(seed * 0x9E3779B97F4A7C15ULL + 0x1234567ULL) { next(); next(); }
+  explicit Rng(uint64_t seed) {
+    // hash the seed first: with s = seed * increment consecutive seeds would yield the same stream shifted by one
+    uint64_t z = seed + 0x632BE59BD9B4E019ULL;
+    z = (z ^ (z >> 32)) * 0xD6E8FEB86659FD93ULL;
+    z = (z ^ (z >> 32)) * 0xD6E8FEB86659FD93ULL;
+    s = z ^ (z >> 32) ^ 0x1234567ULL;
+    next(); next();
+  }
   uint64_t next() {
     uint64_t z = (s += 0x9E3779B97F4A7C15ULL);
     z = (z ^ (z >> 30)) * 0xBF58476D1CE4E5B9ULL;
